@@ -240,7 +240,7 @@ PROPS = {
         "level": "proof",
         "lean_targets": ["LP.Props.C09"],
         "harnesses": [{"name": "h_hist", "quick": 150, "thorough": 3000}],
-        "select": lambda t: t[1] in ("hist", "val"),
+        "select": lambda t: t[1] in ("hist", "val") or (t[1] == "ev" and t[2] == "keep"),
         "nontrivial": lambda t, r: True,
         "rule": "histories of 25-50 public calls over a pool of values (irrational algebraic numbers incl. conjugates, rationals hidden in "
                 "reducible quadratics, rationals as algebraic / rational values), copies taken and destroyed at random times, and three "
@@ -281,7 +281,7 @@ PROPS = {
     },
     "C12": {
         "level": "proof",
-        "lean_targets": ["LP.Props.C12", "LP.Props.C12Exact", "LP.Props.C12Compl", "LP.Props.GenTables"],
+        "lean_targets": ["LP.Props.C12", "LP.Props.C12Exact", "LP.Props.C12Compl", "LP.Props.C12Glue", "LP.Props.GenTables"],
         "gen_tables": True,
         "harnesses": [{"name": "h_eval", "quick": 250, "thorough": 1000, "env": {"LPV_EVAL_MODE": "fs"}}],
         "select": lambda t: t[1] == "ev" and t[2] in ("fs", "rfs"),
